@@ -17,7 +17,7 @@ checks = {
  "C03": dict(engine="E1 sched + E2 clibox", technique="runtime monitoring: positional downstream monitor on gated events + CLI exit-status oracle",
     level="exploration", design="§4 C03",
     text="after every observed non-ignored failure no downstream command may become pending in any explored schedule; exit statuses are observed on the real CLI for an enumerated table of failure positions, codes and flags."),
- "C06": dict(engine="E1 sched", technique="runtime monitoring: identity-carrying probes, execution counting and ordering monitor under controlled schedules; porcupine cross-check of the dedup table history",
+ "C06": dict(engine="E1 sched", technique="runtime monitoring: identity-carrying probes, execution counting and ordering monitor under controlled schedules",
     level="exploration", design="§4 C06",
     text="executions of deduplicated tasks are counted by identity in every explored schedule; referrers must wait for and observe the single execution."),
  "C07": dict(engine="E1 sched + E2 clibox", technique="runtime monitoring: quiescent-state invariants (slot bound, deadlock, work conservation) read off synctest snapshots; CLI monitor for cycles under CPU/memory limits",
